@@ -12,6 +12,7 @@ import Chrono.Proofs.ParsedZonedL
 import Chrono.Proofs.Rfc2822InbandL
 import Chrono.Proofs.Rfc2822ItemL
 import Chrono.Proofs.Rfc2822RejectL
+import Chrono.Proofs.Rfc2822UniqueL
 import Chrono.Extracted.Rfc2822
 
 namespace Chrono.Props.C11
@@ -166,24 +167,30 @@ theorem accepts_iff_valid (s : List Nat) (f : Fields) (h : Rfc2822 s f) :
     obtain ⟨z, hz, _⟩ := reader_accepts_spec s f h hv
     exact ⟨z, hz⟩
 
-/-- **grammar_unambiguous_partial.**  A string that spells fields inside the setter ranges spells no
-other fields.  (`_partial`: for a string BOTH of whose readings lie outside the setter ranges — all
-rejected, `out_of_range_rejected` — uniqueness of the reading is not proved; the full statement
-`Rfc2822 s f → Rfc2822 s f' → f = f'` needs a scanner-free uniqueness argument over the 17 pieces.) -/
-theorem grammar_unambiguous_partial (s : List Nat) (f f' : Fields) (h : Rfc2822 s f) (h' : Rfc2822 s f')
-    (hr : SetterRanges f) : f = f' := by
-  have hr' : SetterRanges f' := (scanner_ok_iff s f' h').mp ⟨_, scanner_complete s f h hr⟩
-  have e := scanner_complete s f h hr
-  rw [scanner_complete s f' h' hr'] at e
-  injection e with e
-  exact (parsedOf_inj f' f hr'.2.2.2.1 hr.2.2.2.1 e).symm
+/-- **grammar_unambiguous.**  The specification relation is unambiguous: a byte string spells at most
+one tuple of fields — ANY fields, in or out of any range (proved on the relation itself, piece by
+piece: a white-space run ends where a byte that starts no white-space character begins, a digit string
+at a non-digit, names and two-digit fields have a fixed length, a zone is followed by no letter).
+Hence "the fields `s` spells" in `accepts_iff_valid`, `weekday_mismatch_rejected` and
+`out_of_range_rejected` are THE fields of `s`: a string of the grammar is accepted iff its one reading
+is valid. -/
+theorem grammar_unambiguous (s : List Nat) (f f' : Fields) (h : Rfc2822 s f) (h' : Rfc2822 s f') : f = f' :=
+  rfc2822_unambiguous s f f' h h'
 
-/-- every accepted string has exactly one reading: if `parse_from_rfc2822 s = Ok z` then the fields
-`s` spells are unique (and valid, and denote `z`: `reader_sound`) -/
-theorem accepted_reading_unique (s : List Nat) (z : Zoned) (hz : Rfc2822.parse_from_rfc2822 s = .ok (.ok z))
-    (f f' : Fields) (h : Rfc2822 s f) (h' : Rfc2822 s f') : f = f' := by
-  have hv : Valid f := (accepts_iff_valid s f h).mp ⟨z, hz⟩
-  exact grammar_unambiguous_partial s f f' h h' (setterRanges_of_valid f hv)
+/-- every accepted string has exactly one reading, and it is valid and denotes the returned value -/
+theorem accepted_reading_unique (s : List Nat) (z : Zoned) (hz : Rfc2822.parse_from_rfc2822 s = .ok (.ok z)) :
+    ∃ f, Rfc2822 s f ∧ Valid f ∧ Denotes f z ∧ ∀ f', Rfc2822 s f' → f' = f := by
+  obtain ⟨f, hf, hv, hd⟩ := reader_sound s z hz
+  exact ⟨f, hf, hv, hd, fun f' hf' => grammar_unambiguous s f' f hf' hf⟩
+
+/-- rejection, stated on the string alone: a string of the grammar NONE of whose readings is valid
+(equivalently, by `grammar_unambiguous`, whose one reading is not valid) is rejected by value -/
+theorem invalid_rejected (s : List Nat) (f : Fields) (h : Rfc2822 s f) (hv : ¬ Valid f) :
+    ∃ e, Rfc2822.parse_from_rfc2822 s = .ok (.error e) := by
+  obtain ⟨r, hr⟩ := reader_total s
+  cases r with
+  | error e => exact ⟨e, hr⟩
+  | ok z => exact absurd ((accepts_iff_valid s f h).mp ⟨z, hr⟩) hv
 
 /-! ## the writer's standard form and the round trip -/
 
